@@ -1406,6 +1406,7 @@ fn open_box(dir: &std::path::Path) -> Result<ChainBox, String> {
 		chain: Some(Arc::new(chain)),
 		adapter,
 		genesis,
+		archive: false,
 	})
 }
 
